@@ -1929,12 +1929,13 @@ class Scheduler:
             check_valid = job.get_option(
                 "check_valid", CacheCheckValid.FULL, as_type=CacheCheckValid
             )
-            if check_valid == CacheCheckValid.FULL:
+            if check_valid == CacheCheckValid.FULL and job.child_jobs:
                 job.calc_subtree_tasks()
             else:
-                # If we did ultimate reduction caching, then we need to query the
-                # backend to determine subtree tasks.
-                job.subtree_tasks = self._get_subtree_tasks(job)
+                # If we did ultimate reduction caching, or the final result came from an
+                # equivalent job of this execution (CSE), there are no child jobs to learn the
+                # subtree tasks from, so we need to query the backend to determine them.
+                job.subtree_tasks.update(self._get_subtree_tasks(job))
         else:
             # Ignore failed child jobs, which have no call_hash.
             child_call_hashes = [
